@@ -450,6 +450,14 @@ def resolve_selection(lst, sel, rng):
         short_rows = sorted(getattr(lst, 'short_indices', {}).get(sk, {}))
         if short_rows and mode % 8 in (5, 6, 7) and not t.row_line:
             r = short_rows[rc % len(short_rows)] % nrows      # a row that short output prints
+        if mode % 8 in (6, 7) and rc % 3 == 0 and len(set(t.row_name)) < nrows:
+            # a row whose name is printed twice in the table (the name means the later one)
+            seen, dup = set(), []
+            for k_, nm_ in enumerate(t.row_name):
+                if nm_ in seen:
+                    dup.append(k_)
+                seen.add(nm_)
+            r = dup[(rc // 3) % len(dup)]
         col = t.column_name[cc % t.num_columns]
         ci = t._col[col]
         sign = 1.0
